@@ -21,7 +21,9 @@ type Clause struct {
 }
 
 type LoopSpec struct {
-	Invariants []Clause
+	Invariants  []Clause
+	Modifies    []*Expr
+	HasModifies bool
 }
 
 type Contract struct {
@@ -257,9 +259,23 @@ func (ss *SpecSet) readSpecFile(path, pkg string) error {
 				break
 			}
 			for _, part := range splitTop(rest, ',') {
+				// "<location> when <condition>": modified only if the condition
+				// holds in the pre-state
+				var cond *Expr
+				if i := strings.Index(part, " when "); i >= 0 {
+					c, err := parseExpr(part[i+6:])
+					if err != nil {
+						return perr(err)
+					}
+					cond = c
+					part = part[:i]
+				}
 				e, err := parseExpr(part)
 				if err != nil {
 					return perr(err)
+				}
+				if cond != nil {
+					e = &Expr{Op: "when", Args: []*Expr{e, cond}}
 				}
 				cur.Modifies = append(cur.Modifies, e)
 			}
@@ -273,8 +289,27 @@ func (ss *SpecSet) readSpecFile(path, pkg string) error {
 				return perr(err)
 			}
 			k2, r3 := splitWord(r2)
+			if k2 == "modifies" {
+				// loop frame: the locations existing at loop entry that the loop may
+				// write (evaluated at loop entry); everything else that existed then is
+				// unchanged at the loop head
+				if cur.Loops[n] == nil {
+					cur.Loops[n] = &LoopSpec{}
+				}
+				cur.Loops[n].HasModifies = true
+				if strings.TrimSpace(r3) != "nothing" {
+					for _, part := range splitTop(r3, ',') {
+						e, err := parseExpr(part)
+						if err != nil {
+							return perr(err)
+						}
+						cur.Loops[n].Modifies = append(cur.Loops[n].Modifies, e)
+					}
+				}
+				break
+			}
 			if k2 != "invariant" {
-				return perr(fmt.Errorf("expected 'invariant'"))
+				return perr(fmt.Errorf("expected 'invariant' or 'modifies'"))
 			}
 			cl, err := parseClause(r3, where)
 			if err != nil {
